@@ -469,6 +469,55 @@ fn corr(seed: u64, maxlog: u32, thorough: bool) {
     }
 }
 
+// ---------------------------------------------------------------- split: the CONCURRENT code path (feature `concurrent`)
+/// `c09 split <seed> <maxlog>`: with `--features concurrent`, fft::evaluate_poly / interpolate_poly /
+/// evaluate_poly_with_offset dispatch to math/src/fft/concurrent.rs (split_radix_fft + permute) for lengths >= 1024 and
+/// Segment::new to its own split_radix_fft for domain sizes >= 1024.  The output must not depend on RAYON_NUM_THREADS
+/// (the check runs this binary under several pool sizes) and must equal the extracted model of split_radix_fft
+/// (`split_eval`, `split_interp`) resp. the serial model (`eval_off`, `rowmat` lines, same format as `corr`).
+fn split_field<B: RF>(r: &mut Rng, o: &mut Out, sizes: &[u32], full: bool) {
+    let p = B::P;
+    for &k in sizes {
+        let n = 1usize << k;
+        let tw = tw_std::<B>(n);
+        let itw = itw_std::<B>(n);
+        let mut vecs: Vec<Vec<u128>> = vec![rand_vec(r, p, n)];
+        if full {
+            vecs.push(unit(n, 1));
+            vecs.push(unit(n, (r.below(n as u64)) as usize));
+            vecs.push(boundary_vec(r, p, n));
+        }
+        for v in &vecs {
+            o.line("split_eval", format!("{} {}", B::NAME, hu(v)), do_evalt::<B>(v, &tw));
+        }
+        let v = rand_vec(r, p, n);
+        o.line("split_interp", format!("{} {}", B::NAME, hu(&v)), do_interpt::<B>(&v, &itw));
+    }
+    if full {
+        // coset evaluation through concurrent::evaluate_poly_with_offset (per-chunk split_radix_fft), serial model
+        let v = rand_vec(r, p, 1024);
+        let off = B::GENERATOR.tu();
+        o.line("eval_off", format!("{} std {:x} 2 {}", B::NAME, off, hu(&v)), do_eval_off::<B>(&v, &tw_std::<B>(1024), off, 2));
+    }
+    // the duplicate of split_radix_fft in prover/src/matrix/segments.rs: domain 1024, row FFTs of size 16 (stretch 1)
+    // and 32 (stretch 2), full and partial last segment
+    rowmat_case::<B>(r, o, 8, 3, 16, 64);
+    rowmat_case::<B>(r, o, 8, 9, 32, 32);
+    if full { rowmat_case::<B>(r, o, 4, 5, 8, 128); }
+}
+
+fn split(seed: u64, maxlog: u32) {
+    let mut r = Rng::new(seed);
+    let mut o = Out { w: std::io::BufWriter::with_capacity(1 << 20, std::io::stdout()), counts: BTreeMap::new() };
+    let conc = cfg!(feature = "concurrent");
+    let _ = writeln!(o.w, "# build concurrent={} threads={}", conc, std::env::var("RAYON_NUM_THREADS").unwrap_or_default());
+    let sizes: Vec<u32> = (10..=maxlog.max(10)).collect();
+    split_field::<f64::BaseElement>(&mut r, &mut o, &sizes, true);
+    split_field::<f62::BaseElement>(&mut r, &mut o, &sizes[..1], false);
+    split_field::<f128::BaseElement>(&mut r, &mut o, &sizes[..1], false);
+    let _ = o.w.flush();
+}
+
 // ---------------------------------------------------------------- falsifier: Horner oracle, no FFT anywhere
 /// Element types under test. The oracle value type `V` is a residue (u128, arithmetic by refmath) for the
 /// base fields and the element itself (the crate's own field arithmetic) for the extension fields.
@@ -1113,6 +1162,7 @@ fn main() {
     let thorough = args.get(4).map(|s| s == "thorough").unwrap_or(false);
     match mode {
         "corr" => corr(seed, maxlog, thorough),
+        "split" => split(seed, maxlog),
         "falsify" => {
             let (evals, fails) = watchdog::run(std::time::Duration::from_secs(30), move |prog| falsify(seed, maxlog, thorough, &prog), |cur| {
                 println!("{{\"what\":\"operation does not terminate (no progress for 30 s)\",\"input\":{},\"expected\":\"returns\",\"actual\":\"hang\"}}", jstr(&cur));
@@ -1120,6 +1170,6 @@ fn main() {
             });
             println!("evaluations={} failures={}", evals, fails);
         }
-        _ => { eprintln!("usage: c09 corr|falsify <seed> <maxlog> [quick|thorough]"); std::process::exit(2); }
+        _ => { eprintln!("usage: c09 corr|falsify|split <seed> <maxlog> [quick|thorough]"); std::process::exit(2); }
     }
 }
